@@ -137,6 +137,19 @@ def arrayUfuncCall (outOk hasSignature : Bool) : UfuncRoute :=
 def arrayUfuncReduce (outOk hasSignature : Bool) : UfuncRoute :=
   if !outOk then .notImplemented else if hasSignature then .arrayFunction else .reduce
 
+/-- the `outer` branch: the inputs (given by their numbers of dimensions) are walked in REVERSE; each is indexed with
+`(..., None * cum)` where `cum` is the total dimension count of the inputs walked before it (= the inputs AFTER it in the
+call); `walk` returns (position in the call, trailing new axes) in walking order -/
+def outerWalk : List (Nat × Nat) → Nat → List (Nat × Nat)
+  | [], _ => []
+  | (i, nd) :: rest, cum => (i, cum) :: outerWalk rest (cum + nd)
+
+/-- the operands handed to `elemwise` by the `outer` branch, in the order they are handed over: (position in the
+caller's argument list, trailing new axes).  `Gen.outerFinalReverse` is read off the source. -/
+def outerPrepare (ndims : List Nat) : List (Nat × Nat) :=
+  let w := outerWalk ((List.range ndims.length).zip ndims).reverse 0
+  if outerFinalReverse then w.reverse else w
+
 /-! ## argument binding -/
 
 /-- one argument of a call, by the way it is passed (`pos i` counts from 0 = the first argument after nothing) -/
@@ -510,9 +523,6 @@ def ExcludedNep18 : ProbeResult → Bool
   | .misbound _ => true
   | _ => false
 
-/-- region of finding F-clip-out: a namespace wrapper that accepts `out` and does not pass it on -/
-def ExcludedDropped (param : Name) : Bool := param == nm_out
-
 /-- accepted keyword probes whose value does NOT reach, through the by-name target, the core keyword that the
 method's parameter of that name reaches (so that `np.f(x, k=v)` would not mean what `x.f(k=v)` means) -/
 def kwInconsistent (t : List Entry) (cls : Name) (ps : List (Probe × ProbeResult)) : List Probe :=
@@ -582,8 +592,8 @@ def Report.fullOk (r : Report) : Bool :=
 
 /-- the statement outside the excluded regions -/
 def Report.partialOk (r : Report) : Bool :=
-  r.coreBad.isEmpty && r.kwBad.isEmpty && r.dropped.all (fun v => ExcludedDropped v.2) &&
-  r.probes.all (fun e => e.2.ok || ExcludedNep18 e.2) && r.kwIncons.all (fun pr => ExcludedDropped pr.param) && r.ufuncOk
+  r.coreBad.isEmpty && r.kwBad.isEmpty && r.dropped.isEmpty &&
+  r.probes.all (fun e => e.2.ok || ExcludedNep18 e.2) && r.kwIncons.isEmpty && r.ufuncOk
 
 /-- the NEP-18 violations of a report: the extent of finding F-nep18-signature on this tree -/
 def Report.nep18Violations (r : Report) : List (Probe × ProbeResult) := r.probes.filter fun e => !e.2.ok
